@@ -220,6 +220,17 @@ def run(ctx):
               "orc_x86_emit_split_3_regions can finish without emitting the compare of n1 with ex->n and its branch: for n smaller than the "
               "alignment distance (e.g. n = 0) the prologue then copies past the end of the arrays and the main-loop counter goes negative")
 
+    # D8: scratch slots of generated code (region counters, row counter) are stored before they are read
+    import emitstate
+    ptu = db.tu("orcprogram-x86")
+    names = {}
+    for fld in db.record("OrcExecutor")["fields"]:
+        names.setdefault(fld["off"], fld["name"])
+    names[db.field("OrcExecutor", "params")["off"] + 4 * db.enum("ORC_VAR_A2")] = "params[ORC_VAR_A2]"
+    n8 = emitstate.check(ptu, rep, "D8-SCRATCH-DEF-BEFORE-USE", where, offset_names=names)
+    if n8 < 6:
+        raise AnalysisBroken("only %d emitted reads of generated-code scratch slots found in orcprogram-x86.c" % n8)
+
     # D6: registers parked around a scalar fallback come back unswapped (they hold the array pointers)
     from x86enc import check_save_restore
     xf = [f for f in db.all_functions() if f.relfile.startswith("orc/orcrules-") and ("sse" in f.relfile or "mmx" in f.relfile or "avx" in f.relfile)]
